@@ -244,7 +244,8 @@ fn parse_index(s: &str) -> Vec<(u64, u64)> {
 
 // -------------------------------------------------------------------------------------------
 // the flat reference (a Vec<u8>, an offset, a window) plus which frame is buffered — the latter
-// only to recognise the two known input classes
+// only to name the two input classes on which the originally pinned reader failed (repaired in
+// /repo since; a recurrence is reported as a new failure under these tags)
 
 #[derive(Clone, Copy, Debug, PartialEq)]
 enum Known {
